@@ -287,6 +287,13 @@ func (x *Exec) mapDelete(st *State, mt *types.Map, m, k Term) {
 }
 
 func (x *Exec) rangeOp(st *State, fr *Frame, in *ssa.Range) {
+	if b, isB := in.X.Type().Underlying().(*types.Basic); isB && b.Info()&types.IsString != 0 {
+		// range over a string: the iterator is a byte position
+		sv := x.val(st, fr, in.X).(Scalar).T
+		x.sym.counter++
+		fr.regs[in] = IterV{Str: true, Map: sv, Visited: intLit(0), Seq: x.sym.counter}
+		return
+	}
 	mt, ok := in.X.Type().Underlying().(*types.Map)
 	if !ok {
 		panic(engineErr("range over %s unsupported", in.X.Type()))
@@ -299,6 +306,9 @@ func (x *Exec) rangeOp(st *State, fr *Frame, in *ssa.Range) {
 
 func (x *Exec) nextOp(st *State, fr *Frame, in *ssa.Next) []*State {
 	it := fr.regs[in.Iter].(IterV)
+	if it.Str {
+		return x.nextRune(st, fr, in, it)
+	}
 	mt := it.MT
 	ks := x.mapKeySort(mt)
 	tup := in.Type().(*types.Tuple)
@@ -773,4 +783,38 @@ func (x *Exec) evalPureClosure(st *State, fv FuncV, args []Value) (Value, bool) 
 		}
 	}
 	return nil, false
+}
+
+// nextRune: `for i, r := range s`: Map holds the string, Visited the byte position. Either the position has
+// reached the end, or a rune of width 1..4 starts there; an ASCII rune is the byte at that position, for other
+// runes only the range of code points is known (UTF-8 decoding is not modelled).
+func (x *Exec) nextRune(st *State, fr *Frame, in *ssa.Next, it IterV) []*State {
+	tup := in.Type().(*types.Tuple)
+	pos := it.Visited
+	slen := mk(SInt, "strlen", it.Map)
+	done := st.clone()
+	dfr := done.top()
+	done.assume(mk(SBool, ">=", pos, slen))
+	dfr.regs[in] = TupleV{[]Value{Scalar{tFalse, tup.At(0).Type()}, Scalar{intLit(0), tup.At(1).Type()}, Scalar{intLit(0), tup.At(2).Type()}}}
+	done.trail = append(done.trail, fmt.Sprintf("%s.range-done", relName(fr.fn)))
+	st.assume(and(mk(SBool, "<=", intLit(0), pos), mk(SBool, "<", pos, slen)))
+	r := x.sym.fresh("rune", SInt)
+	w := x.sym.fresh("runewidth", SInt)
+	x.sym.declareFun("strat", []Sort{SStr, SInt}, SInt)
+	b0 := mk(SInt, "strat", it.Map, pos)
+	st.assume(and(mk(SBool, "<=", intLit(0), r), mk(SBool, "<=", r, intLit(0x10FFFF)), mk(SBool, "<=", intLit(1), w), mk(SBool, "<=", w, intLit(4)), mk(SBool, "<=", mk(SInt, "+", pos, w), slen)))
+	st.assume(eq(mk(SBool, "<", r, intLit(128)), and(eq(w, intLit(1)), eq(r, b0), mk(SBool, "<", b0, intLit(128)))))
+	nit := it
+	nit.Visited = mk(SInt, "+", pos, w)
+	fr.regs[in.Iter] = nit
+	var kOut, vOut Value = Scalar{pos, types.Typ[types.Int]}, Scalar{r, types.Typ[types.Rune]}
+	if b, isB := tup.At(1).Type().(*types.Basic); isB && b.Kind() == types.Invalid {
+		kOut = Scalar{tFalse, tup.At(1).Type()}
+	}
+	if b, isB := tup.At(2).Type().(*types.Basic); isB && b.Kind() == types.Invalid {
+		vOut = Scalar{tFalse, tup.At(2).Type()}
+	}
+	fr.regs[in] = TupleV{[]Value{Scalar{tTrue, tup.At(0).Type()}, kOut, vOut}}
+	st.trail = append(st.trail, fmt.Sprintf("%s.range-next", relName(fr.fn)))
+	return []*State{done}
 }
